@@ -35,7 +35,7 @@ def run(ctx) -> None:
     ctx.rule("C08.inband", "T7: no identifier can spell an escape token (escape character itself escaped)", floor=1)
     ctx.rule("C08.siblings", "T5: the interpreters of a rule tree agree on node kinds and on the or/and polarity", floor=12)
     ctx.rule("C08.pickle", "T7: rule pickled as text and re-parsed; GPR.copy deep-copies", floor=3)
-    ctx.rule("C08.remover", "T5: _GeneRemover implements gene := false", floor=4)
+    ctx.rule("C08.remover", "finite evaluation: _GeneRemover implements gene := false; remove_genes rewrites every rule that mentions a removed gene", floor=3)
     ctx.rule("C08.nocache", "T4: GPR reading methods keep no derived state", floor=5)
     ctx.rule("C07.eval", "T5: _eval_gpr is the and/or homomorphism (shared with C07)", floor=8)
     check_table(ctx)
@@ -241,52 +241,10 @@ def check_pickle(ctx) -> None:
 
 # --------------------------------------------------------------------------------------- remover
 def check_remover(ctx) -> None:
-    prog = ctx.prog
-    vn = prog.func("cobra.manipulation.delete", "_GeneRemover.visit_Name")
-    rets = [n for n in walk_local(vn.node) if isinstance(n, ast.Return)]
-    ok = len(rets) == 1 and isinstance(rets[0].value, ast.IfExp) and norm(rets[0].value.body) == "None" and "in self.target_genes" in norm(rets[0].value.test) and norm(rets[0].value.orelse) == "node"
-    if ok:
-        ctx.ok("C08.remover", vn, rets[0], "a removed gene disappears, every other name is kept")
-    else:
-        ctx.bad("C08.remover", vn, rets[0] if rets else vn.node, "_GeneRemover.visit_Name does not map removed genes to None and keep the others")
-    vb = prog.func("cobra.manipulation.delete", "_GeneRemover.visit_BoolOp")
-    body = [s for s in vb.node.body if not (isinstance(s, ast.Expr) and isinstance(s.value, ast.Constant))]
-    # original_n = len(node.values) before generic_visit
-    idx_visit = next((i for i, s in enumerate(body) if isinstance(s, ast.Expr) and isinstance(s.value, ast.Call) and norm(s.value.func).endswith("generic_visit")), None)
-    idx_count = next((i for i, s in enumerate(body) if isinstance(s, ast.Assign) and norm(s.value) == "len(node.values)"), None)
-    if idx_visit is None:
-        ctx.bad("C08.remover", vb, vb.node, "children are not visited (generic_visit) before the operator is simplified")
-        return
-    if idx_count is None or idx_count > idx_visit:
-        ctx.bad("C08.remover", vb, body[idx_visit], "the child count is not taken before the children are visited: a lost child of an And cannot be detected")
-        return
-    count = body[idx_count].targets[0].id
-    ctx.ok("C08.remover", vb, body[idx_count], "child count taken before the children are visited")
-    rest = body[idx_visit + 1 :]
-    feats = {"empty": False, "and_lost": False, "single": False, "keep": False}
-    for s in rest:
-        if isinstance(s, ast.If):
-            t = norm(s.test)
-            r = [x for x in s.body if isinstance(x, ast.Return)]
-            rv = norm(r[0].value) if r and r[0].value is not None else "None"
-            if t == "len(node.values) == 0" and rv == "None":
-                feats["empty"] = True
-            elif "isinstance(node.op, And)" in t and f"len(node.values) < {count}" in t and rv == "None" and " or " not in t:
-                feats["and_lost"] = True
-            elif t == "len(node.values) == 1" and rv == "node.values[0]":
-                feats["single"] = True
-        elif isinstance(s, ast.Return) and norm(s.value) == "node":
-            feats["keep"] = True
-    for k, msg in (
-        ("empty", "an operator that lost all children disappears"),
-        ("and_lost", "an And that lost any child (after its children were simplified) disappears"),
-        ("single", "a single survivor is lifted"),
-        ("keep", "otherwise the operator is kept"),
-    ):
-        if feats[k]:
-            ctx.ok("C08.remover", vb, k, msg)
-        else:
-            ctx.bad("C08.remover", vb, vb.node, f"gene := false table broken: it is no longer the case that {msg}")
+    """_GeneRemover is evaluated (gprform.check_gene_remover): no spelling of its two visit methods is prescribed."""
+    from . import gprform
+
+    ctx.guard(gprform.check_gene_remover, ctx, "C08.remover")
 
 
 # --------------------------------------------------------------------------------------- nocache
